@@ -19,7 +19,7 @@ def mc_consts(**kw):
 
 def gen_consts(**kw):
     c = {"N": 3, "SyncMap": "TRUE", "MaxDrops": 0, "Faults": "FALSE", "Modes": tla_set(["free", "after", "before"]),
-         "BadRpc": "FALSE", "MaxPush": 3, "DropHolding": "TRUE"}
+         "BadRpc": "FALSE", "MaxPush": 3, "DropHolding": "TRUE", "WithClose": "TRUE"}
     c.update(kw)
     return c
 
@@ -93,7 +93,7 @@ def generate_walks(prop, tier, wd):
     if prop == "C05":
         # walks through protocol faults of the peer (stray / duplicate / malformed replies, close,
         # cancelled rpc()) on a smaller instance
-        r2 = run_tlc("MCSessionGen", cfg(constants=gen_consts(N=2, Faults="TRUE", BadRpc="TRUE", MaxPush=3 if thorough else 2),
+        r2 = run_tlc("MCSessionGen", cfg(constants=gen_consts(N=2, Faults="TRUE", BadRpc="TRUE", WithClose="FALSE", MaxPush=3 if thorough else 2),
                                          invariants=["InvSafety", "InvProgress"],
                                          extra_lines=["ACTION_CONSTRAINT Edge", "VIEW View"]),
                      f"{prop}-gen-faults", workers=1, timeout=3000)
